@@ -14,7 +14,7 @@ from pyvc.engine import (Contract, Val, VInt, VBool, VStr, VObj, VFunc, VOpaque,
 
 
 class Apply(Contract):
-    props = ('C03', 'C08', 'C09', 'C10', 'C12', 'C14')
+    props = ('C03', 'C08', 'C09', 'C10', 'C12', 'C14', 'C15')
     file = 'ombott/response.py'
     qualname = 'HTTPResponse.apply'
     assumptions = ('dict.clear() / dict.update(d) as usual: afterwards the receiver holds exactly the items of d',)
